@@ -41,3 +41,37 @@ def contract_of(bid, dbl, vul_name, declarer):
 
 def dbl_status(contract):
     return 2 if contract.xx else (1 if contract.x else 0)
+
+
+def stir(k=0):
+    """Exercise unrelated parts of the library in this process (random deals, an auction, some plays, scoring, the text
+    formats) - answers of the code under test must not depend on what else the process did before.  Whatever happens in
+    here is not judged (each part belongs to another property); exceptions are swallowed."""
+    import io
+    import random
+    try:
+        random.seed(k)
+        for _ in range(2):
+            Hands.generate_random_hands()
+        from bridge_env import BiddingPhase
+        from bridge_env.playing_phase import PlayingPhaseWithHands
+        from bridge_env.score import calc_score, point_difference_to_imps
+        bp = BiddingPhase(dealer=SEAT[k % 4], vul=VUL[VUL_NAMES[k % 4]])
+        for c in (BID[(k * 3) % 30], BID[36], BID[37], BID[35], BID[35], BID[35]):
+            bp.take_bid(c)
+        contract = bp.contract()
+        hands = Hands.generate_random_hands()
+        env = PlayingPhaseWithHands(contract, hands)
+        for _ in range(6):
+            p = env.active_player
+            card = sorted(env.current_available_cards_in_hand(p))[0]
+            env.play_card_by_player(card, p)
+        calc_score(contract, 7 + k % 7)
+        point_difference_to_imps(430 - 100 * (k % 9))
+        text = Hands.generate_random_hands().to_pbn(SEAT[k % 4])
+        Hands.convert_pbn(text).to_binary()
+        Contract.str_to_contract(str(contract), contract.vul, contract.declarer)
+        from bridge_env.data_handler.pbn_handler.parser import PbnParser
+        PbnParser().parse_board_settings(io.StringIO(f'[Board "{k}"]\n[Dealer "N"]\n[Vulnerable "None"]\n[Deal "{text}"]\n\n'))
+    except Exception:  # noqa
+        pass
